@@ -294,6 +294,10 @@ class _Chunking(Client):
         if kind == "yield":
             self.yields += 1
             v = node.value
+            # a tagged batch (`yield number, batch`) hands the accumulator out just the same
+            if isinstance(v, ast.Tuple) and sum(1 for e_ in v.elts if isinstance(e_, ast.Name) and e_.id == self.acc) == 1 \
+                    and not any(isinstance(n_, ast.Name) and n_.id == self.acc for e_ in v.elts if not isinstance(e_, ast.Name) for n_ in ast.walk(e_)):
+                v = next(e_ for e_ in v.elts if isinstance(e_, ast.Name) and e_.id == self.acc)
             if not (isinstance(v, ast.Name) and v.id == self.acc):
                 self.problems.append((node.lineno, f"yields `{src(v)}` instead of the accumulator"))
                 return (state,)
